@@ -3,7 +3,7 @@
 
   op line (prefix token encoding):
     c03.q   <w> <nv> v_0 … v_{nv-1} <nt> { <ncols> <nrows> cell… }*  <Plan>
-    c03.rec <w> <limit> <nv> v… <nt> {table}* <Plan anchor> <Plan step>
+    c03.rec <w> <limit> <nv> v… <nt> {table}* <Plan anchor> <Plan step> [<Plan final>]
   `w`      = number of worker chunks the model cuts every outer record range into (the answer must not depend on it)
   `v_i`    = profile tokens (Proto.parseProfile); cells and literals are indices into this dictionary
   Plan    := T k | G | J kind Plan Plan JC | Q Plan Where Sel
@@ -287,6 +287,9 @@ def c03 (cmd : String) (args : List String) : String :=
       let (tables, ts) ← pTables vals nt ts
       let (anchor, ts) ← pPlan vals (ts.length + 1) ts
       let (stepP, ts) ← pPlan vals (ts.length + 1) ts
+      -- optional final query over the recursive table (`G` = its complete contents)
+      let (finalP, ts) ← (if ts.isEmpty then some (none, ts)
+        else (pPlan vals (ts.length + 1) ts).map (fun (pt : Plan × List String) => (some pt.1, pt.2)))
       if !ts.isEmpty then none else
       let env : Env := { tables := tables.toArray, gen := (0, []), w := w }
       let (aw, a) ← eval env anchor
@@ -298,7 +301,10 @@ def c03 (cmd : String) (args : List String) : String :=
         | some (_, rows) => rows
         | none => []
       match recursiveImpl step limit a with
-      | some out => some (showRes (aw, out))
+      | some out =>
+        (match finalP with
+        | none => some (showRes (aw, out))
+        | some fp => (eval { env with gen := (aw, out) } fp).map showRes)
       | none => some "ERR").getD bad
   | _ => bad
 
